@@ -27,12 +27,25 @@ fn modulus(bits: usize) -> BoxedStrategy<Vec<u64>> {
         1 => pow2_vec(bits - 1, n),                          // 2^(BITS-1)
         _ => { let mut v = mask_vec(vec![u64::MAX; n], bits); v[0] &= !1; v } // 2^BITS - 2
     });
-    prop_oneof![1 => small, 2 => pow, 1 => top, 5 => sized_value(n, bits), 2 => uint(bits)].boxed()
+    // normalised moduli of every limb length that fits: top bit of the leading limb set, the rest
+    // generic (the single-limb and two-limb reduction kernels take this shape without shifting)
+    let normalised = (sized_value(n, bits), limbs(n)).prop_map(move |(v, noise)| {
+        let l = v.iter().rposition(|x| *x != 0).map_or(1, |i| i + 1);
+        let mut v: Vec<u64> = (0..n).map(|i| if i < l { noise[i] } else { 0 }).collect();
+        v[l - 1] |= 1 << 63;
+        // generic leading limb just above 2^63 half of the time
+        if noise[0] & 1 == 1 {
+            v[l - 1] = (1 << 63) | (v[l - 1] >> 4);
+        }
+        let m = mask_vec(v, bits);
+        if m.iter().all(|x| *x == 0) { mask_vec(vec![1; n], bits) } else { m }
+    });
+    prop_oneof![1 => small, 2 => pow, 1 => top, 5 => sized_value(n, bits), 2 => uint(bits), 3 => normalised].boxed()
 }
 
 /// operand relative to the modulus
 fn operand(bits: usize) -> BoxedStrategy<(u8, Vec<u64>)> {
-    (0u8..10, uint(bits)).boxed()
+    (0u8..13, uint(bits)).boxed()
 }
 
 fn place(kind: u8, raw: &[u64], m: &BigUint, bits: usize) -> Vec<u64> {
@@ -49,6 +62,11 @@ fn place(kind: u8, raw: &[u64], m: &BigUint, bits: usize) -> Vec<u64> {
             // random multiple of m plus small offset (forces reduction)
             if m.is_zero() { big(raw) } else { let k = big(raw) / m; (k * m + (big(raw) % 3u32)) % &two }
         }
+        // exact multiples of m (true residue 0): the largest one that fits, a generic one with a
+        // generic (large) cofactor, and m times a one-limb cofactor
+        10 => if m.is_zero() { big(raw) } else { (&two - 1u32) / m * m },
+        11 => if m.is_zero() { big(raw) } else { big(raw) / m * m },
+        12 => if m.is_zero() { big(raw) } else { let k = BigUint::from(raw.first().copied().unwrap_or(1) | 1 << 63); let x = k * m; if x < two { x } else { big(raw) / m * m } },
         _ => big(raw),
     };
     limbs_of(&(v % &two), n)
@@ -73,7 +91,16 @@ fn strat(bits: usize) -> BoxedStrategy<Case> {
         .prop_map(move |(m, (ka, ra), (kb, rb), e)| {
             let mb = big(&m);
             let a = place(ka, &ra, &mb, bits);
-            let b = place(kb, &rb, &mb, bits);
+            let mut b = place(kb, &rb, &mb, bits);
+            // one case in eight: b = k*m - a, so that a + b is an exact multiple of m
+            if rb.first().map_or(false, |x| x % 8 == 0) && !mb.is_zero() {
+                let ab = big(&a);
+                let k = (&ab / &mb) + 1u32 + (big(&rb) % 3u32);
+                let t = k * &mb;
+                if t >= ab && &t - &ab < pow2(bits) {
+                    b = limbs_of(&(&t - &ab), nlimbs(bits));
+                }
+            }
             Case::new().l(a).l(b).l(m).l(e)
         })
         .boxed()
@@ -156,7 +183,7 @@ fn body<const B: usize, const L: usize>(c: &Case, rec: &mut Rec) -> R {
 fn main() {
     let spec = PropSpec {
         id: "C10",
-        rule_text: "tuples (a, b, m, e) per width: m from {0,1,2,3, 2^k, 2^k+-1, 2^BITS-1, 2^BITS-2, 2^(BITS-1), boundary-alphabet values of every limb length 1..LIMBS}; operands placed relative to m: {0, 1, m-1, m, m+1, MAX, k*m+{0,1,2}, alphabet}; exponents {0..3, 2^k, 2^k-1, alphabet truncated to <= 128 bits (full width for BITS <= 64)}; exhaustive: all (a,b,m) triples for BITS <= 5, all (a,m) pairs for inv_mod for BITS <= 8. Oracle: num-bigint %, modpow, gcd; 0 when m = 0; inv_mod by its defining predicate. Non-trivial: m >= 2 and (an operand >= m, or a+b >= 2^BITS, or a*b >= 2^BITS, or m has fewer limbs than the product); distinct by inputs.",
+        rule_text: "tuples (a, b, m, e) per width: m from {0,1,2,3, 2^k, 2^k+-1, 2^BITS-1, 2^BITS-2, 2^(BITS-1), boundary-alphabet values of every limb length 1..LIMBS, normalised generic moduli of every limb length (top bit of the leading limb set, leading limb just above 2^63 half of the time)}; operands placed relative to m: {0, 1, m-1, m, m+1, MAX, k*m+{0,1,2}, exact multiples (largest that fits, generic cofactor, one-limb cofactor >= 2^63), alphabet}, one case in eight with b = k*m - a (the sum is an exact multiple); exponents {0..3, 2^k, 2^k-1, alphabet truncated to <= 128 bits (full width for BITS <= 64)}; exhaustive: all (a,b,m) triples for BITS <= 5, all (a,m) pairs for inv_mod for BITS <= 8. Oracle: num-bigint %, modpow, gcd; 0 when m = 0; inv_mod by its defining predicate. Non-trivial: m >= 2 and (an operand >= m, or a+b >= 2^BITS, or a*b >= 2^BITS, or m has fewer limbs than the product); distinct by inputs.",
         assumptions: vec![
             "num-bigint / num-integer modpow, gcd and % are correct (oracle)",
             "exponents are truncated to 128 bits above 64-bit widths to bound the cost of the oracle and of pow_mod",
